@@ -435,7 +435,10 @@ fn check_model(m: &Model) -> Verdict {
     }
     let f = m.fmt.ext();
     let cells = m.cells();
-    let orig = model::build(m, &cells);
+    let mut orig = model::build(m, &cells);
+    // storage shape: extra lines, longer rows, larger layer, other terminal size ... — the picture inside the buffer
+    // rectangle stays what the model says, so every clause below applies unchanged
+    let shape = icyv::shape::perturb(&mut orig, m.shape);
     let opts = m.options();
     let bytes = match orig.to_bytes(f, &opts) {
         Ok(b) => b,
@@ -458,19 +461,16 @@ fn check_model(m: &Model) -> Verdict {
     let used = m.used_pages(&cells);
     let ctrl = cells.iter().any(|c| c.ch < 32);
     let nontrivial = m.h != 25 || m.w != 80 || used.len() >= 2 || ctrl;
+    // class = height class [,2fonts] [,cmt = SAUCE with comment lines] | storage shape [~ = steered]
     let mut class = hclass(m.h).to_string();
-    if m.w != 80 {
-        class.push_str(",w!=80");
-    }
     if used.len() >= 2 {
         class.push_str(",2fonts");
     }
-    if ctrl {
-        class.push_str(",ctrl");
+    if m.sauce && matches!(m.sauce_meta, 1 | 2 | 3 | 5) {
+        class.push_str(",cmt");
     }
-    if m.compress {
-        class.push_str(",compress");
-    }
+    class.push('|');
+    class.push_str(shape);
     if m.steered {
         class.push('~');
     }
@@ -641,7 +641,8 @@ fn check_fuzz(c: &FuzzCase, st: Steer) -> Verdict {
     }
     let f = m.fmt.ext();
     let cells = m.cells();
-    let orig = model::build(m, &cells);
+    let mut orig = model::build(m, &cells);
+    icyv::shape::perturb(&mut orig, m.shape);
     let mut opts = m.options();
     let Ok(bytes) = orig.to_bytes(f, &opts) else {
         return Verdict::discard("base not saved");
